@@ -319,6 +319,39 @@ fn check_alt(input: &AltIn, case: &mut Case) -> Result<(), Fail> {
     writers(&pk, &u, &c, 5, case, false)
 }
 
+/// packets obtained from the parser (stray / twin OPT records, any codes, foreign compression) go through
+/// the same framing and writer oracles; the model is what the parsed packet shows
+fn check_reparsed(input: &super::c11::In, case: &mut Case) -> Result<(), Fail> {
+    let m = super::c11::render(input);
+    let pk = match parse(&m)? {
+        Ok(p) => p,
+        Err(_) => {
+            case.class("rejected");
+            return Ok(());
+        }
+    };
+    let model = lib("observe", || observe(&pk))?;
+    case.nontrivial = model.records().count() >= 2;
+    let u = ser_plain(&pk).map_err(|f| Fail::new("c04:plain-failed", f.msg))?;
+    let c = ser_compressed(&pk).map_err(|f| Fail::new("c04:compressed-failed", f.msg))?;
+    // the framing oracle counts OPT records: the EDNS record plus every stray one
+    let opts_in_sections = model.records().filter(|r| r.rdata.code() == 41).count();
+    let frame = |out: &[u8], what: &str| -> Result<(), Fail> {
+        let w = walk(out).map_err(|e| Fail::new("c04:framing", format!("{}: the envelope walker fails: {:?}", what, e)))?;
+        let want = [model.questions.len(), model.answers.len(), model.authorities.len(), model.additionals.len() + model.edns.is_some() as usize];
+        for k in 0..4 {
+            ensure!(w.counts[k] as usize == want[k], "c04:count", "{}: header count #{} is {} but the packet holds {} entries", what, k, w.counts[k], want[k]);
+        }
+        ensure!(w.end == out.len(), "c04:trailing", "{}: entries end at {} but {} bytes were written", what, w.end, out.len());
+        let opts = w.records.iter().filter(|r| r.rtype == 41).count();
+        ensure!(opts == opts_in_sections + model.edns.is_some() as usize, "c04:opt-count", "{}: {} OPT records written, the packet holds {}", what, opts, opts_in_sections + model.edns.is_some() as usize);
+        Ok(())
+    };
+    frame(&u, "build_bytes_vec of a parsed packet")?;
+    frame(&c, "build_bytes_vec_compressed of a parsed packet")?;
+    writers(&pk, &u, &c, 4, case, false)
+}
+
 fn strategy(t: Tier) -> BoxedStrategy<In> {
     (gen::sharing(t), any::<u16>(), proptest::bool::weighted(0.15)).boxed()
 }
@@ -326,10 +359,11 @@ fn strategy(t: Tier) -> BoxedStrategy<In> {
 pub fn def() -> CheckDef {
     CheckDef {
         id: "C04",
-        rule: "proptest: suffix-sharing packets (as C03) x {plain, compressed} x writer configurations: Vec (plain), growable cursor at offset 0 / 2 / k over empty and over 0xEE-pre-filled storage longer than the message, writers accepting only 1 / 3 / 7 bytes per write call (at offset 0 and k), &mut [u8] and Cursor<&mut [u8]> of capacities 0..=len+2 (every capacity for 15% of the packets up to 600 bytes, 11 boundary capacities otherwise). Oracles: independent envelope walker (counts == entries supplied, EDNS counted once, entries end exactly at the end, every RDATA decodes to exactly RDLENGTH by the schema); byte equality with the vector-returning entry points, untouched bytes before/after; Err(FailedToWrite) iff capacity < len. A second section builds packets through the other public constructors (TXT::try_from(&str) around multiples of 254 bytes, TXT::try_from(HashMap), with_string, the SVCB/HTTPS setters, A/AAAA from std addresses, CharacterString::try_from, to_cache_flush_record, into_reply) and applies the same framing, writer and re-parse oracles. Non-trivial = >= 2 records and at least one pointer; evaluations count writer configurations",
+        rule: "proptest: suffix-sharing packets (as C03) x {plain, compressed} x writer configurations: Vec (plain), growable cursor at offset 0 / 2 / k over empty and over 0xEE-pre-filled storage longer than the message, writers accepting only 1 / 3 / 7 bytes per write call (at offset 0 and k), &mut [u8] and Cursor<&mut [u8]> of capacities 0..=len+2 (every capacity for 15% of the packets up to 600 bytes, 11 boundary capacities otherwise). Oracles: independent envelope walker (counts == entries supplied, EDNS counted once, entries end exactly at the end, every RDATA decodes to exactly RDLENGTH by the schema); byte equality with the vector-returning entry points, untouched bytes before/after; Err(FailedToWrite) iff capacity < len. A section `reparsed` sends packets obtained from the parser (foreign compression, stray and twin OPT records, any opcode / rcode) through the same framing and writer oracles. Another section builds packets through the other public constructors (TXT::try_from(&str) around multiples of 254 bytes, TXT::try_from(HashMap), with_string, the SVCB/HTTPS setters, A/AAAA from std addresses, CharacterString::try_from, to_cache_flush_record, into_reply) and applies the same framing, writer and re-parse oracles. Non-trivial = >= 2 records and at least one pointer; evaluations count writer configurations",
         assumptions: vec!["same exclusions as C02", "the final cursor position is not part of the statement and is not checked"],
         sections: vec![
             Box::new(PropSection { name: "writers", rule: "framing and writer agreement", strategy, cases: (40_000, 400_000), check }),
+            Box::new(PropSection { name: "reparsed", rule: "packets obtained from the parser through every writer", strategy: super::c11::strategy_pub, cases: (30_000, 300_000), check: check_reparsed }),
             Box::new(PropSection { name: "constructors", rule: "packets built through the text / map / setter constructors", strategy: alt_strategy, cases: (40_000, 400_000), check: check_alt }),
         ],
     }
